@@ -147,6 +147,10 @@ def worker_main():
         try:
             cct = Circuit('\n'.join(case['lines']))
             res['orig_canon'] = canon(cct, s0)
+            try:
+                res['orig_ivp'] = bool(cct.is_IVP)
+            except Exception:   # noqa
+                res['orig_ivp'] = None
         except Exception as ex:
             res['orig_err'] = '%s: %s' % (type(ex).__name__, str(ex)[:120])
             print(json.dumps(res)); sys.stdout.flush()
@@ -164,9 +168,27 @@ def worker_main():
                     src = Circuit('\n'.join(rw['lines']))
                 else:
                     src = Circuit('\n'.join(case['lines']))   # fresh object: rewrites must not share caches
+                if rw.get('history'):
+                    # edits made IN PLACE on the one Circuit object before the rewrite
+                    for h in rw['history']:
+                        if h[0] == 'add':
+                            src.add(h[1])
+                        elif h[0] == 'remove':
+                            src.remove(h[1])
+                        elif h[0] == 'touch':      # populate caches (graph, analysis) before the next edit
+                            src.cg
+                            src.is_IVP
+                    r['history_text'] = str(src).split('\n')
+                    fresh = apply(Circuit(str(src)), rw)
+                    r['fresh_canon'] = canon(fresh, s0)
+                    r['fresh_text'] = str(fresh).split('\n')
                 new = apply(src, rw)
                 r['canon'] = canon(new, s0)
                 r['text'] = str(new).split('\n')
+                try:
+                    r['ivp'] = bool(new.is_IVP)
+                except Exception:   # noqa
+                    r['ivp'] = None
             except Exception as ex:
                 r['err'] = type(ex).__name__
                 r['errmsg'] = str(ex)[:120]
@@ -200,6 +222,9 @@ class Gen:
     def __init__(self, rng, flavour):
         self.rng = rng
         self.flavour = flavour          # 'dc' (R + dc sources), 'step' (RLC, no ICs), 'ivp' (ICs)
+        # a third of the ivp circuits carry only EXPLICIT ZERO initial conditions, and only inside groups:
+        # the circuit is an initial-value problem solely because of them
+        self.zero_ic = flavour == 'ivp' and rng.random() < 0.34
         self.elts = []
         self.counts = {}
         self.nnode = 0
@@ -245,6 +270,10 @@ class Gen:
 
     def group_ics(self, ty, k):
         mode = self.ic_modes(ty)
+        if self.zero_ic and ty in ('L', 'C'):
+            if self.rng.random() < 0.75:
+                return 'zero', [Fraction(0)] * k
+            return 'absent', [None] * k
         if mode == 'absent':
             return mode, [None] * k
         if mode == 'equal':
@@ -366,7 +395,7 @@ def gen_circuit_any(rng, idx):
             g.parallel_group(a, b, rng.choice(g.passive_types() + (['I'] if rng.random() < 0.3 else [])))
             seeded += 1
         else:
-            g.add(rng.choice(g.passive_types()), a, b, ic=(Fraction(rng.randint(-2, 2)) if flavour == 'ivp' and rng.random() < 0.5 else None))
+            g.add(rng.choice(g.passive_types()), a, b, ic=(Fraction(rng.randint(-2, 2)) if flavour == 'ivp' and not g.zero_ic and rng.random() < 0.5 else None))
     # dangling and disconnected parts
     if rng.random() < 0.35:
         x = g.fresh()
@@ -403,6 +432,8 @@ def gen_circuit_any(rng, idx):
         e = dict(e)
         if e['kw'] == 'ac':
             e['extra'] = ['0', '3']          # phase 0, omega 3
+        if g.zero_ic and any_ic and e['ty'] in ('V', 'I') and e['kw'] == 'step' and rng.random() < 0.6:
+            e['kw'] = 'dc'                   # a non-causal source: zero-state transient vs steady state differ
         if flavour == 'ivp' and not any_ic and e['ty'] in ('V', 'I'):
             e['kw'] = 'step'                 # dc sources next to reactances without ICs would be a steady-state problem
         e['nodes'] = [nn(x) for x in e['nodes']]
@@ -539,6 +570,19 @@ def gen_rewrites(rng, ck, quick):
             lines.append(lcapy_line(e))
     if syms:
         pool.append({'op': 'subs', 'kwargs': {'subs': syms}, 'lines': lines})
+    # history on ONE object: attach an open-circuit / port component to a node that has exactly two real
+    # connections, remove it again in place, then remove dangling parts
+    cnt = {}
+    for e in ck['elts']:
+        if e['ty'] not in ('O', 'A'):
+            for n in e['nodes']:
+                cnt[n] = cnt.get(n, 0) + 1
+    two = sorted(n for n, c_ in cnt.items() if c_ == 2 and n != '0')
+    for n in rng.sample(two, min(len(two), 1 if quick else 3)):
+        oname = rng.choice(['O9', 'O9', 'P9'])
+        hist = [['add', '%s %s 0' % (oname, n)]] + ([['touch']] if rng.random() < 0.5 else []) + [['remove', oname]]
+        kwargs = rng.choice([{}, {'dangling': True}])
+        pool.append({'op': 'simplify' if kwargs else 'remove_dangling', 'kwargs': kwargs, 'history': hist, 'must': True})
     if quick:
         must = [r for r in pool if r.get('must')]
         rest = [r for r in pool if not r.get('must')]
@@ -768,6 +812,19 @@ def run(chk, replay=None):
                 if 'err' in rr:
                     chk.count('lcapy-error', '%s:%s' % (op, rr['err']))
                     continue
+                if rw.get('history'):
+                    chk.count('history', 'same-as-fresh' if key_of(rr['fresh_canon']) == lkey else 'differs-from-fresh')
+                    if key_of(rr['fresh_canon']) != lkey:
+                        counterexamples += 1
+                        chk.counterexample({'rewrite': 'simplify' if op.startswith('simplify') else op, 'cause': 'history-dependent'},
+                                           {'input': {'lines': c['lines'], 'rewrite': rw, 'pts': c['pts'], 's0': c['s0'],
+                                                      'features': c['features'], 'flavour': c['flavour']},
+                                            'python_hash_seed': hs, 'lcapy': rr.get('text'), 'lcapy_fresh': rr.get('fresh_text'),
+                                            'spec': 'a rewrite of a Circuit edited in place must equal the rewrite of a freshly parsed copy of the same netlist text'},
+                                           '%s after in-place edits differs from %s of the freshly parsed netlist' % (op, op))
+                if r0.get('orig_ivp') is not None and rr.get('ivp') is not None:
+                    chk.count('analysis-kind', 'kept' if r0['orig_ivp'] == rr['ivp'] else
+                              ('ivp->not-ivp' if r0['orig_ivp'] else 'not-ivp->ivp'))
                 for ev in events:
                     f = ev.split(':')
                     chk.count('combined', '%s:%s' % (f[0], f[1]))
@@ -860,6 +917,8 @@ def run(chk, replay=None):
                         and any(x[0][0] in 'VI' and x[2] in ('dc', '') for x in orig_canon):
                     # the last initial condition disappeared: Lcapy no longer treats the circuit as an
                     # initial-value problem and analyses its dc sources in steady state
+                    flagged.append(('-', '-', 'ivp-lost'))
+                elif strict and r0.get('orig_ivp') and rr.get('ivp') is False:
                     flagged.append(('-', '-', 'ivp-lost'))
                 if op == 'renumber' and any(x[0][0] in 'LC' and x[3] is not None and x[4] is None for x in orig_canon):
                     # Cpt._netsubs prints the absent initial condition of an L or C as the word `None`
